@@ -186,11 +186,14 @@ package idxfile
 // built from exactly one name of the bucket -- idSize() bytes -- never from the
 // rest of the bucket, whose first bytes would land behind the 20 significant
 // bytes of a SHA-1 id and make it a different value and a different map key.
+// (Positions inside a bucket are bounded by its length: the position
+// arithmetic is taken as exact, opt assume_no_overflow.)
 //gvc:func (*idxfileEntryIter).Next
 //gvc:  props C10
 //gvc:  theory int
 //gvc:  opt coarse
 //gvc:  opt frame args
+//gvc:  opt assume_no_overflow
 //gvc:  loop 1 invariant pos: true
 //gvc:  sink Write requires onename: len(arg0) == ite(i.idx.objectIDSize != 0, i.idx.objectIDSize, 20)
 //gvc:end
@@ -200,6 +203,7 @@ package idxfile
 //gvc:  theory int
 //gvc:  opt coarse
 //gvc:  opt frame args
+//gvc:  opt assume_no_overflow
 //gvc:  loop 1 invariant pos: it1 >= 0
 //gvc:  loop 2 invariant pos: true
 //gvc:  sink Write requires onename: len(arg0) == ite(idx.objectIDSize != 0, idx.objectIDSize, 20)
